@@ -298,7 +298,8 @@ pub fn decorate_role(rng: &mut Rng, r: &mut crate::session::Replica) {
             *plan = crate::simreader::Plan::whole();
         }
         plan.delay_at = Some(rng.below(plan.cuts.len() + 2));
-        plan.delay_secs = *rng.pick(&[11u64, 61, 3_601, 86_401, 2_678_401]);
+        // odd = simulated time passes; even = the wall clock is stepped back (see SimReader::fill_buf)
+        plan.delay_secs = *rng.pick(&[11u64, 61, 3_601, 86_401, 2_678_401, 2, 3_600, 86_400]);
         pre.push_str("slow-");
     }
     if !pre.is_empty() {
